@@ -7,7 +7,7 @@ OUT=seeded/REFACTORS.tsv
 IDS=$(for i in $(seq -w 1 20); do echo C$i; done)
 [ -f $OUT ] || echo -e "refactor\ttests\t$(echo $IDS | tr ' ' '\t')" > $OUT
 for p in "$@"; do
-  name=$(echo $p | sed 's#.*/\(R[0-9]*\)/seeded_out/patch\([0-9]*\).diff#\1-v\2#')
+  name=$(echo $p | sed -e 's#.*/\(R[0-9]*\)/seeded_out/patch\([0-9]*\).diff#\1-v\2#' -e 's#.*/refactors/\(R[0-9]*-v[0-9]*\)/patch.diff#\1#')
   grep -q "^$name	" $OUT && continue
   res=$(tools/try_seed_scratch.sh $p - $IDS 2>&1)
   t=$(echo "$res" | grep -c "tests-with-patch: PASS")
